@@ -11,8 +11,11 @@ pub mod c08;
 pub mod c09;
 pub mod c10;
 pub mod c11;
+pub mod c12;
+pub mod c13;
+pub mod c14;
 
-pub const PROPS: [&str; 11] = ["C01", "C02", "C03", "C04", "C05", "C06", "C07", "C08", "C09", "C10", "C11"];
+pub const PROPS: [&str; 14] = ["C01", "C02", "C03", "C04", "C05", "C06", "C07", "C08", "C09", "C10", "C11", "C12", "C13", "C14"];
 
 pub fn lanes(prop: &str) -> Vec<Lane> {
     match prop {
@@ -27,6 +30,9 @@ pub fn lanes(prop: &str) -> Vec<Lane> {
         "C09" => c09::lanes(),
         "C10" => c10::lanes(),
         "C11" => c11::lanes(),
+        "C12" => c12::lanes(),
+        "C13" => c13::lanes(),
+        "C14" => c14::lanes(),
         _ => vec![],
     }
 }
